@@ -232,11 +232,46 @@ def producer_rules(prog, res):
     wr = [(b, i) for b, i, x in c.events(lambda y: y.get("k") == "asg") if any(z.get("k") == "idx" for z in walk(x["lhs"]))]
     res.check(bool(gs) and bool(wr) and c.must_pass(via_edges={(g.bid, g.ok) for g in gs}, targets=wr), R2, "copyBlockSequences:room-tested-before-writes", c.loc,
               "`nbOutSequences > maxSequences - seqIndex` cuts every write into the caller's array", "extracted sequences can overflow the caller's array")
+    # extraction turns a repcode into the raw offset it stands for: the history it is resolved against must be the one at the
+    # START of the block (partition).  The object handed to ZSTD_copyBlockSequences may not have been given to anything that
+    # advances it (ZSTD_seqStore_resolveOffCodes, ZSTD_updateRep ...) on a path from the function's entry to the call.
+    nsite = 0
+    for f in prog.fns_in("compress/zstd_compress.c"):
+        for b, i, c in f.calls("ZSTD_copyBlockSequences"):
+            nsite += 1
+            a = strip_casts(f.resolve_x(c["a"][2]))
+            base = a
+            while base is not None and base.get("k") in ("mem", "idx", "un"):
+                base = strip_casts(f.resolve_x(base.get("b") if base.get("k") in ("mem", "idx") else base.get("e")))
+            bn = base.get("n") if base is not None and base.get("k") == "ref" else None
+            fieldpath = [y.get("f") for y in walk(a) if y.get("k") == "mem"]
+            reach0 = f.flow([f.entry_node()], cut_roots=[(b, i)])
+            before = {t for t in reach0 if t != (b, i) and (b, i) in f.flow([(t[0], t[1] + 1)])}     # roots that can run before the call
+            advanced = []
+            if "prevCBlock" in fieldpath:
+                # the context's own history of the previous block: it only moves when the block state is confirmed (prev/next swap)
+                advanced = ["ZSTD_blockState_confirmRepcodesAndEntropyTables"] if any(t in before for t in f.call_roots("ZSTD_blockState_confirmRepcodesAndEntropyTables")) else []
+                bn = bn or "zc"
+            elif bn is not None:
+                for bb, ii, r in f.roots():
+                    if (bb, ii) == (b, i) or (bb, ii) not in before:
+                        continue
+                    for y in walk(r):
+                        if y.get("k") == "call" and y.get("c") not in (None, "ZSTD_copyBlockSequences", "ZSTD_memcpy", "memcpy", "__builtin_memcpy") and \
+                                any(strip_casts(f.resolve_x(z)) is not None and strip_casts(f.resolve_x(z)).get("k") == "ref" and strip_casts(f.resolve_x(z)).get("n") == bn
+                                    for z in y.get("a", [])):
+                            advanced.append(y.get("c"))
+            ok = bn is not None and not advanced
+            res.check(ok, R2, "%s:history-at-block-start@%s" % (f.name, c.get("l")), "%s:%s" % (f.file, c.get("l")),
+                      "repcodes are resolved against a history nothing has advanced since the block started",
+                      "%s hands ZSTD_copyBlockSequences a repcode history that %s may already have advanced: extracted repcode matches are resolved against "
+                      "the END of the partition, the list is not a parse of the source (ZSTD_generateSequences with the block splitter)" % (f.name, ", ".join(sorted(set(advanced))) or "?"))
+    res.check(nsite >= 2, R2, "extraction-sites", "lib/compress/zstd_compress.c", "%d extraction call sites" % nsite, "extraction call sites: %d" % nsite)
     m = prog.fn("ZSTD_mergeBlockDelimiters")
     lp = cond_edges(m, lambda q: q.get("k") == "bin" and q["op"] == "<" and "p:1" in m.anchors(q["rhs"], depth=0), "true")
     acc = [(b, i) for b, i, r in m.roots() for y in walk(r) if y.get("k") == "idx"]
     res.check(bool(lp) and bool(acc) and m.must_pass(via_edges=set(lp), targets=acc), R2, "mergeBlockDelimiters:loop-bounded", m.loc, "every array access is inside `in < seqsSize`", "merge loop can run past the array")
-    res.need(R2, 2)
+    res.need(R2, 5)
 
 
 PRE_VALIDATION = ("blockSize_explicitDelimiter", "ZSTD_fastSequenceLengthSum", "determine_blockSize", "ZSTD_postProcessSequenceProducerResult")
